@@ -16,7 +16,7 @@ Lemma DMAX_pos : 0 < DMAX. Proof. unfold DMAX. lia. Qed.
 Lemma U32MAX_val : U32MAX = 4294967295. Proof. reflexivity. Qed.
 
 (* the state after k steps in closed form, as long as the limit is not reached *)
-Definition state_at (c : case) (k : nat) : st :=
+Definition state_at (c : pcase) (k : nat) : st :=
   {| max_sleep := c_max c; max_retries := c_limit c;
      cur := delay (c_max c) (c_init c) k;
      count := Z.min U32MAX (c_count0 c + Z.of_nat k) |}.
@@ -24,7 +24,7 @@ Definition state_at (c : case) (k : nat) : st :=
 Lemma delay_bounds mx d0 k : 0 <= mx <= DMAX -> 0 <= d0 <= DMAX -> 0 <= delay mx d0 k <= DMAX.
 Proof. intros Hm Hd. induction k as [|k IH]; cbn [delay]; lia. Qed.
 
-Lemma limit_reached_state_at c k : valid c ->
+Lemma limit_reached_state_at c k : valid_p c ->
   limit_reached (state_at c k) = negb (in_limit c k).
 Proof.
   intros (Hm & Hi & Hc & Hl). unfold limit_reached, in_limit, state_at; cbn.
@@ -40,7 +40,7 @@ Proof.
   intros H. apply Z.ltb_lt in H. apply Z.ltb_lt. lia.
 Qed.
 
-Lemma next_state_at c k : valid c -> in_limit c k = true ->
+Lemma next_state_at c k : valid_p c -> in_limit c k = true ->
   next (state_at c k) = (Some (delay (c_max c) (c_init c) k), state_at c (S k)).
 Proof.
   intros Hv Hin. unfold next. rewrite limit_reached_state_at by exact Hv. rewrite Hin. cbn [negb].
@@ -51,7 +51,7 @@ Proof.
   - unfold sat_inc. rewrite Nat2Z.inj_succ. lia.
 Qed.
 
-Lemma next_stuck c k : valid c -> in_limit c k = false ->
+Lemma next_stuck c k : valid_p c -> in_limit c k = false ->
   next (state_at c k) = (None, state_at c k).
 Proof.
   intros Hv Hin. unfold next. rewrite limit_reached_state_at by exact Hv. rewrite Hin. reflexivity.
@@ -64,7 +64,7 @@ Proof.
 Qed.
 
 (* once the limit is reached the iterator answers None for ever *)
-Lemma take_stuck c k : valid c -> in_limit c k = false ->
+Lemma take_stuck c k : valid_p c -> in_limit c k = false ->
   forall n, take n (state_at c k) = repeat (-1) n.
 Proof.
   intros Hv Hin n. induction n as [|n IH]; [reflexivity|].
@@ -79,7 +79,7 @@ Proof.
   apply IH. replace (S k) with (k + 1)%nat by lia. apply in_limit_false_later. exact Hin.
 Qed.
 
-Lemma take_spec c : valid c -> forall n k,
+Lemma take_spec_p c : valid_p c -> forall n k,
   take n (state_at c k) = map (spec_item c) (seq k n).
 Proof.
   intros Hv n. induction n as [|n IH]; intros k; [reflexivity|].
@@ -89,29 +89,27 @@ Proof.
   - rewrite take_stuck by assumption. symmetry. apply spec_stuck. exact Hin.
 Qed.
 
-Lemma init_is_state_at c : valid c -> init_state c = state_at c 0.
+Lemma init_is_state_at c : valid_p c -> init_state c = state_at c 0.
 Proof.
   intros (Hm & Hi & Hc & Hl). unfold init_state, state_at. cbn [delay Z.of_nat]. f_equal. lia.
 Qed.
 
 (* main theorem: for every policy and every number of observed calls, the implementation model
    produces exactly the specified sequence; in particular there is no panic marker in it *)
-Theorem run_eq_spec c : valid c -> run c = spec c.
+Theorem run_eq_spec_p c : valid_p c -> run_p c = spec_p c.
 Proof.
-  intros Hv. unfold run, spec. rewrite init_is_state_at by exact Hv. apply take_spec. exact Hv.
+  intros Hv. unfold run_p, spec_p. rewrite init_is_state_at by exact Hv. apply take_spec_p. exact Hv.
 Qed.
 
-Theorem oracle_holds c : valid c -> oracle c (run c) = true.
-Proof. intros Hv. unfold oracle. rewrite run_eq_spec by exact Hv. apply list_eqb_refl. Qed.
 
 (* the statement's clauses, read off the specification *)
 
 (* exactly `limit` delays (counted from a fresh policy), then None for ever; unbounded if unlimited *)
-Theorem yields_iff_within_limit c k : valid c -> c_count0 c = 0 -> (k < Z.to_nat (c_n c))%nat ->
-  nth k (run c) 0 <> -1 <->
+Theorem yields_iff_within_limit_p c k : valid_p c -> c_count0 c = 0 -> (k < Z.to_nat (c_n c))%nat ->
+  nth k (run_p c) 0 <> -1 <->
   match c_limit c with Some m => Z.of_nat k < m | None => True end.
 Proof.
-  intros Hv H0 Hk. rewrite run_eq_spec by exact Hv. unfold spec.
+  intros Hv H0 Hk. rewrite run_eq_spec_p by exact Hv. unfold spec_p.
   rewrite (nth_indep _ 0 (spec_item c 0)) by (rewrite map_length, seq_length; exact Hk).
   rewrite map_nth, seq_nth by exact Hk. cbn [plus].
   unfold spec_item, in_limit. rewrite H0.
@@ -129,9 +127,9 @@ Proof. reflexivity. Qed.
 Theorem later_doubles_capped mx d0 k : delay mx d0 (S k) = Z.min mx (2 * delay mx d0 k).
 Proof. reflexivity. Qed.
 
-Theorem no_panic c : valid c -> ~ In (-2) (run c).
+Theorem no_panic_p c : valid_p c -> ~ In (-2) (run_p c).
 Proof.
-  intros Hv. rewrite run_eq_spec by exact Hv. unfold spec. intros Hin.
+  intros Hv. rewrite run_eq_spec_p by exact Hv. unfold spec_p. intros Hin.
   apply in_map_iff in Hin as (k & Hk & _). unfold spec_item in Hk.
   destruct Hv as (Hm & Hi & _).
   pose proof (delay_bounds (c_max c) (c_init c) k Hm Hi).
@@ -139,12 +137,12 @@ Proof.
 Qed.
 
 (* non-vacuity: the default policy is valid, and so is the extreme one *)
-Example valid_default : valid (mk_case 30000000000 (Some 10) 500000000 0 12).
-Proof. unfold valid, DMAX, U32MAX; cbn; lia. Qed.
-Example valid_extreme : valid (mk_case DMAX None DMAX U32MAX 5).
-Proof. unfold valid, DMAX, U32MAX; cbn; lia. Qed.
+Example valid_default : valid_p (mk_pcase 30000000000 (Some 10) 500000000 0 12).
+Proof. unfold valid_p, DMAX, U32MAX; cbn; lia. Qed.
+Example valid_extreme : valid_p (mk_pcase DMAX None DMAX U32MAX 5).
+Proof. unfold valid_p, DMAX, U32MAX; cbn; lia. Qed.
 Example default_sequence :
-  run (mk_case 30000000000 (Some 10) 500000000 0 12) =
+  run_p (mk_pcase 30000000000 (Some 10) 500000000 0 12) =
   [500000000; 1000000000; 2000000000; 4000000000; 8000000000; 16000000000;
    30000000000; 30000000000; 30000000000; 30000000000; -1; -1].
 Proof. vm_compute. reflexivity. Qed.
@@ -152,17 +150,152 @@ Proof. vm_compute. reflexivity. Qed.
 (* the pinned code before the fix violated the property: an initial delay above DMAX/2 panics on
    the first call, and an unlimited policy panics on call 2^32 in builds with overflow checks *)
 Theorem legacy_refuted_mul :
-  exists c, valid c /\ In (-2) (Legacy.take (Z.to_nat (c_n c)) (init_state c)).
+  exists c, valid_p c /\ In (-2) (Legacy.take (Z.to_nat (c_n c)) (init_state c)).
 Proof.
-  exists (mk_case DMAX (Some 3) (DMAX / 2 + 1) 0 2). split.
-  - unfold valid, DMAX, U32MAX; cbn; lia.
+  exists (mk_pcase DMAX (Some 3) (DMAX / 2 + 1) 0 2). split.
+  - unfold valid_p, DMAX, U32MAX; cbn; lia.
   - vm_compute. left. reflexivity.
 Qed.
 
 Theorem legacy_refuted_count :
-  exists c, valid c /\ In (-2) (Legacy.take (Z.to_nat (c_n c)) (init_state c)).
+  exists c, valid_p c /\ In (-2) (Legacy.take (Z.to_nat (c_n c)) (init_state c)).
 Proof.
-  exists (mk_case 1000 None 10 U32MAX 1). split.
-  - unfold valid, DMAX, U32MAX; cbn; lia.
+  exists (mk_pcase 1000 None 10 U32MAX 1). split.
+  - unfold valid_p, DMAX, U32MAX; cbn; lia.
   - vm_compute. left. reflexivity.
 Qed.
+
+(* ---------- the case interface: constructors, second iterator, connect loop ---------- *)
+
+(* the connect loop, from the closed-form state after k delays *)
+Lemma connect_state_at c : valid_p c -> forall fuel k,
+  let '(a, g, ds) := connect fuel (state_at c k) in
+  (forall j, (j < fuel)%nat -> in_limit c (k + j) = true) ->
+  a = Z.of_nat fuel /\ g = 0 /\ ds = map (fun j => delay (c_max c) (c_init c) j) (seq k fuel).
+Proof.
+  intros Hv fuel. induction fuel as [|f IH]; intros k.
+  - cbn. intros _. repeat split.
+  - cbn [connect]. destruct (in_limit c k) eqn:Hin.
+    + rewrite next_state_at by assumption.
+      specialize (IH (S k)). destruct (connect f (state_at c (S k))) as [[a g] ds].
+      intros Hall. destruct IH as (Ha & Hg & Hd).
+      { intros j Hj. replace (S k + j)%nat with (k + S j)%nat by lia. apply Hall. lia. }
+      subst. split; [lia|]. split; [reflexivity|]. reflexivity.
+    + rewrite next_stuck by assumption. intros Hall.
+      specialize (Hall 0%nat ltac:(lia)). rewrite Nat.add_0_r in Hall. congruence.
+Qed.
+
+Lemma connect_gives_up c : valid_p c -> forall fuel k y,
+  (forall j, (j < y)%nat -> in_limit c (k + j) = true) -> in_limit c (k + y) = false ->
+  (y < fuel)%nat ->
+  connect fuel (state_at c k) =
+  (Z.of_nat y + 1, 1, map (fun j => delay (c_max c) (c_init c) j) (seq k y)).
+Proof.
+  intros Hv fuel. induction fuel as [|f IH]; intros k y Hall Hstop Hy; [lia|].
+  cbn [connect]. destruct y as [|y].
+  - rewrite Nat.add_0_r in Hstop. rewrite next_stuck by assumption. reflexivity.
+  - assert (Hin : in_limit c k = true).
+    { specialize (Hall 0%nat ltac:(lia)). rewrite Nat.add_0_r in Hall. exact Hall. }
+    rewrite next_state_at by assumption.
+    rewrite (IH (S k) y).
+    + cbn [seq map]. f_equal. f_equal. lia.
+    + intros j Hj. replace (S k + j)%nat with (k + S j)%nat by lia. apply Hall. lia.
+    + replace (S k + y)%nat with (k + S y)%nat by lia. exact Hstop.
+    + lia.
+Qed.
+
+(* AsyncSecureChannel::connect against a server that refuses every attempt: with a fresh policy
+   of limit m it makes exactly m + 1 attempts, sleeps exactly the policy's m delays in order,
+   and gives up; with an unlimited policy it never gives up *)
+Theorem connect_limited c m fuel : valid_p c -> c_count0 c = 0 -> c_limit c = Some m ->
+  (Z.to_nat m < fuel)%nat ->
+  connect fuel (init_state c) =
+  (m + 1, 1, map (fun j => delay (c_max c) (c_init c) j) (seq 0 (Z.to_nat m))).
+Proof.
+  intros Hv H0 Hl Hf. rewrite init_is_state_at by exact Hv.
+  assert (Hm : 0 <= m) by (destruct Hv as (_ & _ & _ & Hlim); rewrite Hl in Hlim; lia).
+  rewrite (connect_gives_up c Hv fuel 0 (Z.to_nat m)).
+  - f_equal. f_equal. lia.
+  - intros j Hj. unfold in_limit. rewrite Hl, H0. apply Z.ltb_lt. cbn [plus]. lia.
+  - unfold in_limit. rewrite Hl, H0. apply Z.ltb_ge. cbn [plus]. lia.
+  - exact Hf.
+Qed.
+
+Theorem connect_unlimited c fuel : valid_p c -> c_limit c = None ->
+  let '(a, g, ds) := connect fuel (init_state c) in a = Z.of_nat fuel /\ g = 0.
+Proof.
+  intros Hv Hl. rewrite init_is_state_at by exact Hv.
+  pose proof (connect_state_at c Hv fuel 0%nat) as H.
+  destruct (connect fuel (state_at c 0)) as [[a g] ds].
+  destruct H as (Ha & Hg & _); [|split; assumption].
+  intros j _. unfold in_limit. rewrite Hl. reflexivity.
+Qed.
+
+Lemma connect_spec p : valid_p p -> enc_connect (connect (Z.to_nat (c_n p)) (init_state p)) = spec_connect p.
+Proof.
+  intros Hv. rewrite init_is_state_at by exact Hv. unfold spec_connect.
+  destruct (c_limit p) as [m|] eqn:Hl.
+  - destruct Hv as (Hm & Hi & Hc & Hlim). rewrite Hl in Hlim.
+    assert (Hv : valid_p p) by (unfold valid_p; rewrite Hl; tauto).
+    cbv zeta. destruct (Z.ltb_spec (Z.max 0 (m - c_count0 p)) (c_n p)) as [Hlt|Hge].
+    + rewrite (connect_gives_up p Hv _ 0 (Z.to_nat (Z.max 0 (m - c_count0 p)))).
+      * cbn [enc_connect]. f_equal. lia.
+      * intros j Hj. unfold in_limit. rewrite Hl. apply Z.ltb_lt. cbn [plus]. lia.
+      * unfold in_limit. rewrite Hl. apply Z.ltb_ge. cbn [plus]. lia.
+      * lia.
+    + pose proof (connect_state_at p Hv (Z.to_nat (c_n p)) 0%nat) as H.
+      destruct (connect (Z.to_nat (c_n p)) (state_at p 0)) as [[a g] ds].
+      destruct H as (Ha & Hg & _).
+      * intros j Hj. unfold in_limit. rewrite Hl. apply Z.ltb_lt. cbn [plus]. lia.
+      * subst. cbn [enc_connect]. f_equal; try reflexivity; lia.
+  - pose proof (connect_state_at p Hv (Z.to_nat (c_n p)) 0%nat) as H.
+    destruct (connect (Z.to_nat (c_n p)) (state_at p 0)) as [[a g] ds].
+    destruct H as (Ha & Hg & _).
+    + intros j _. unfold in_limit. rewrite Hl. reflexivity.
+    + subst. cbn [enc_connect]. f_equal; try reflexivity; lia.
+Qed.
+
+Theorem run_eq_spec c : valid c -> run c = spec c.
+Proof.
+  intros (Hv & _). unfold run, spec. destruct (c_connect c).
+  - apply connect_spec. exact Hv.
+  - apply run_eq_spec_p. exact Hv.
+Qed.
+
+Theorem oracle_holds c : valid c -> oracle c (run c) = true.
+Proof. intros Hv. unfold oracle. rewrite run_eq_spec by exact Hv. apply list_eqb_refl. Qed.
+
+Theorem no_panic c : valid c -> ~ In (-2) (run c).
+Proof.
+  intros (Hv & _). unfold run. destruct (c_connect c).
+  - rewrite connect_spec by exact Hv. unfold spec_connect.
+    destruct (c_limit (policy_of c)); cbv zeta; [destruct (_ <? _)|]; cbn [In]; lia.
+  - apply no_panic_p. exact Hv.
+Qed.
+
+(* every constructor builds a valid policy from valid arguments *)
+Lemma policy_of_valid h pre b p : valid_p p ->
+  match h with Config l => -1 <= l <= 2147483647 | _ => True end ->
+  valid_p (policy_of (mk_case h pre b p)).
+Proof.
+  intros (Hm & Hi & Hc & Hl) Hh. unfold policy_of, valid_p, MS, DMAX, U32MAX in *. cbn [c_how c_p].
+  destruct h; cbn [c_max c_limit c_init c_count0]; repeat split; try lia; try exact Hl.
+  destruct (Z.ltb_spec l 0); [trivial|lia].
+Qed.
+
+(* the pinned connect loop (back-off created inside the loop) never gave up for any limit > 0 and
+   always slept the initial delay *)
+Theorem legacy_connect_refuted :
+  exists c, valid_p c /\ c_count0 c = 0 /\ c_limit c = Some 2 /\
+            LegacyConnect.connect 10 (init_state c) = (10, 0, repeat (c_init c) 10) /\
+            connect 10 (init_state c) = (3, 1, [c_init c; 2 * c_init c]).
+Proof.
+  exists (mk_pcase 30000 (Some 2) 500 0 10). repeat split; try (unfold valid_p, DMAX, U32MAX; cbn; lia).
+Qed.
+
+Example valid_case_connect : valid (mk_case (Config 3) 0 true (mk_pcase 2000000 None 1000000 0 6)).
+Proof. unfold valid, valid_p, DMAX, U32MAX; cbn; lia. Qed.
+Example run_case_connect : run (mk_case (Config 3) 0 true (mk_pcase 2000000 None 1000000 0 6)) = [4; 1].
+Proof. vm_compute. reflexivity. Qed.
+Example run_case_never : run (mk_case Never 2 false (mk_pcase 5 None 7 0 2)) = [-1; -1].
+Proof. vm_compute. reflexivity. Qed.
